@@ -202,6 +202,11 @@ class Ctx:
             r = self.rng(e[2] if len(e) > 2 else None)
             if r is None:
                 return self.opaque(e)
+            if isinstance(e[1], str) and e[1].startswith("arg1.") and e[1].endswith(".*") and e[1][5:-2].isdigit():
+                self.apply_param_facts()
+                hi_ = getattr(self, "_env_hi", {}).get(int(e[1][5:-2]))
+                if hi_ is not None:
+                    r = (r[0], min(r[1], hi_))
             if len(e) > 3:
                 # an explicitly indexed element: a different index expression is a different value
                 return self.atom(("m", e[1], e[3]), r[0], r[1])
@@ -415,6 +420,16 @@ class Ctx:
             return self.rng(self.ty_of(e))
         if h in ("arg", "load"):
             return self.rng(self.ty_of(e))
+        if h == "call" and e[1].split("::")[-1] in ("from", "into") and len(e[2]) == 1 and ("convert" in e[1]):
+            # `u8::from(flag)` / lossless widening: the operand's interval (a bool is 0 or 1)
+            a0 = e[2][0]
+            ty0 = self.ty_of(a0)
+            if ty0 == "bool" or (a0[0] == "const" and a0[2:3] == ("bool",)):
+                return (0, 1)
+            r0 = self.interval(a0)
+            rt = self.rng(self.ty_of(e))
+            if r0 and rt and rt[0] <= r0[0] and r0[1] <= rt[1]:
+                return r0
         if h == "bin":
             op = e[1]
             a, b = self.interval(e[2]), self.interval(e[3])
@@ -713,9 +728,15 @@ class Ctx:
             return None
         while x[0] == "ref" or (x[0] == "call" and x[1].split("::")[-1] in ("deref", "as_slice") and x[2]) or (x[0] == "cast" and x[1].startswith("PointerCoercion")):
             x = x[1] if x[0] == "ref" else (x[2][0] if x[0] == "call" else x[4])
+        while x[0] == "promoted" or x[0] == "ref":
+            x = x[1]
         w = self.const_width(x)
         if w is not None:
             return w
+        if x[0] == "repeat" and isinstance(x[2], int):
+            return x[2]
+        if x[0] == "repeat" and str(x[2]).isdigit():
+            return int(x[2])
         ty = self.ty_of(x) or ""
         m = re.match(r"^&?\[u8; (\d+)\]$", ty.strip())
         if m:
@@ -1188,7 +1209,7 @@ class Ctx:
         if fn is None:
             return
         for (kind, k, val) in param_facts(self.u, fn):
-            if kind != "env_len_ge1" and (self.defs.get(k) or self.pdefs.get(k)):
+            if kind not in ("env_len_ge1", "env_hi") and (self.defs.get(k) or self.pdefs.get(k)):
                 continue                  # the parameter is reassigned in the body
             if kind == "hi":
                 r = self.rng(self.b["locals"][k]["ty"])
@@ -1200,6 +1221,10 @@ class Ctx:
                     self.atom(("v", k), val, r[1])
             elif kind == "len_ge1":
                 self.extra.append(Lin(1) - self.atom(("len", val), 0, LEN_MAX))
+            elif kind == "env_hi":
+                # by-reference capture read through `*env.k` (load `arg1.k.*`), by-value capture read as `env.k`: see lin()
+                self._env_hi = getattr(self, "_env_hi", {})
+                self._env_hi[k] = val
             elif kind == "env_len_ge1":
                 env = sym.expr_local(self.b, 1)
                 for key in (self.len_key(("proj", env, str(k))), ("len", "arg1.%d" % k)):
@@ -1563,6 +1588,15 @@ def _closure_env_facts(u, fn, cxs):
     out = []
     for k, (op, e) in enumerate(zip(ops, exprs)):
         ty = (op.get("place") or {}).get("ty", "") if op.get("k") in ("copy", "move") else ""
+        ity = ty.replace("&mut ", "").replace("&", "").strip()
+        if ity in INT_RANGE and not ty.startswith("&mut"):
+            # a captured integer whose value is bounded where the closure is created (shared borrow / copy: it cannot change afterwards)
+            li = cx.lin(e)
+            for bound in (LEN_MAX,):
+                good, _h = cx.prove_le0(li - Lin(bound), bb)
+                if good:
+                    out.append(("env_hi", k, bound))
+                    break
         if "[" in ty or "Vec<" in ty or ty.endswith("str"):
             key = cx.len_key(e)
             good, _h = cx.prove_le0(Lin(1) - cx.atom(key, 0, LEN_MAX), bb)
